@@ -312,3 +312,21 @@ fn wasm_round_trip(report: &mut Report, tier: Tier) -> u64 {
     report.set("wasm_histories", traces);
     traces
 }
+
+pub fn replay(case: &Value) -> Vec<(String, Value)> {
+    let alpha = alphabet();
+    let idx: Vec<usize> = case["records"].as_array().map(|a| a.iter().filter_map(|x| x.as_u64().map(|v| v as usize)).collect()).unwrap_or_default();
+    if idx.iter().any(|i| *i >= alpha.len()) {
+        return vec![("bad-replay-file".into(), json!({}))];
+    }
+    let recs: Vec<Record> = idx.iter().map(|i| alpha[*i].clone()).collect();
+    let cut = case["sessions_cut_at"].as_array().map(|a| (a[0].as_u64().unwrap_or(0) as usize, a[1].as_u64().unwrap_or(0) as usize)).unwrap_or((0, 0));
+    if cut.0 > cut.1 || cut.1 > recs.len() {
+        return vec![("bad-replay-file".into(), json!({}))];
+    }
+    match catch(|| check_history(&recs, cut)) {
+        Ok(Some(p)) => vec![p],
+        Ok(None) => vec![],
+        Err(p) => vec![("panic".into(), json!({"msg": p.msg}))],
+    }
+}
